@@ -99,6 +99,49 @@ def record_index(cfgd, feats, queries, id0, with_reg=True):
     return ev
 
 
+def record_decimal(n, feats, id0, unit=0.1):
+    """grid of n x n cells of size `unit' (not a binary fraction); model coordinates are integers, real ones model * unit;
+    one point query at every vertex of every feature"""
+    from tracklib.core.obs_coords import ENUCoords
+    ev = []
+    base = {"cs": n, "ls": n, "cx": 1, "cy": 1}
+    real = [[(p[0] * unit, p[1] * unit) for p in f] for f in feats]
+    try:
+        with core.quiet():
+            idx = make_index(real, 0, 0, (unit, unit), 0.0)
+    except (Exception, SystemExit) as ex:
+        return [dict(base, id=id0, ev="build", feats=feats, exc=repr(ex)[:200])]
+    for f in feats:
+        for v in f:
+            e = dict(base, id=id0 + len(ev), feats=feats, raised=False, res=[], ev="pointv", q=list(v), unit=unit)
+            try:
+                with core.quiet():
+                    r = idx.request(ENUCoords(v[0] * unit, v[1] * unit, 0.0))
+                e["res"] = sorted(set(int(x) for x in r))
+            except (Exception, SystemExit) as ex:
+                e["raised"] = True
+                e["exc"] = repr(ex)[:120]
+            ev.append(e)
+    return ev
+
+
+def job_decimal(args):
+    n, count, id0, seed = args
+    rnd = random.Random(seed)
+    out = []
+    for _ in range(count):
+        feats = [[[0, 0], [0, 0]], [[n, n], [n, n]]]
+        for _f in range(rnd.randrange(2, 6)):
+            a = [rnd.randrange(0, n + 1), rnd.randrange(0, n + 1)]
+            if rnd.random() < 0.5:
+                b = [min(n, a[0] + rnd.randrange(0, 3)), a[1]]       # to the right of a grid line / along it
+            else:
+                b = [a[0], min(n, a[1] + rnd.randrange(0, 3))]
+            feats.append([a, b] if rnd.random() < 0.5 else [b, a])
+        out.extend(record_decimal(n, feats, id0 + len(out), unit=rnd.choice([0.1, 0.3, 0.7])))
+    return out
+
+
 def lattice(cfgd, inner=False):
     W, H = cfgd["cs"] * cfgd["cx"], cfgd["ls"] * cfgd["cy"]
     mx, my = cfgd.get("mx", 0), cfgd.get("my", 0)
@@ -227,9 +270,12 @@ def run(ctx):
             jobs.append(("rnd", (cfgd, per, idn, ctx.seed * 7 + idn)))
             idn += 1000000
     jobs.append(("rnd", (dflt, 3 if quick else 30, idn, ctx.seed * 11)))
+    for r in range(4):                    # grids whose cell size is not a binary fraction: vertex queries only
+        idn += 1000000
+        jobs.append(("dec", (10, 15 if quick else 200, idn, ctx.seed * 13 + r)))
     events = []
     with mp.get_context("fork").Pool(16, initializer=core._pool_init, initargs=(None,)) as pool:
-        res = [pool.apply_async(job_exhaustive if k == "ex" else job_random, (a,)) for k, a in jobs]
+        res = [pool.apply_async({"ex": job_exhaustive, "rnd": job_random, "dec": job_decimal}[k], (a,)) for k, a in jobs]
         for r in res:
             events.extend(r.get())
     for k, e in enumerate(events):
